@@ -1,6 +1,6 @@
 (* C18 — Only the leader writes and streams; followers read at its revision or fail.
    Property theorems only: each is closed by `exact <lemma>` and followed by Print Assumptions. *)
-From KB Require Import Model.Roles Model.C18Cases Proofs.Roles.
+From KB Require Import Model.Roles Model.RolesN Model.C18Cases Proofs.Roles Proofs.RolesN.
 Local Open Scope N_scope.
 
 (* every request kind of both APIs, the compaction loop and /status, every proxy setting, every
@@ -56,12 +56,36 @@ Proof. exact run_inv. Qed.
 Print Assumptions C18_install_invariant.
 
 (* the executable oracle accepts what the model produces *)
+(* any number of concurrent follower reads (Model/RolesN.v: the same steps over a list of reads; the released mutex is
+   taken by whichever waiting read is scheduled next): on every schedule every finished read scanned at a revision that
+   is at least the leader's revision when the read began; the follower's revision never drops; and the two-read model
+   above is the instance n = 2 ([abs], [tr_run]: every schedule of the two reads is a schedule of the n-read model with
+   the same leader, follower and syncer revisions, mutex, flight and reads) *)
+Theorem C18_read_fresh_n : forall share n l0 f0 ls, nfresh (nrun share (n_init n l0 f0) ls) = true.
+Proof. exact nread_fresh. Qed.
+Print Assumptions C18_read_fresh_n.
+Theorem C18_install_invariant_n : forall share n l0 f0 ls, ninv (nrun share (n_init n l0 f0) ls).
+Proof. exact nrun_inv. Qed.
+Print Assumptions C18_install_invariant_n.
+Theorem C18_follower_revision_monotone_n : forall share s l, (n_frev s <= n_frev (nstep share s l))%N.
+Proof. exact nstep_frev_mono. Qed.
+Print Assumptions C18_follower_revision_monotone_n.
+Theorem C18_two_reads_are_n2 : forall share ls s, abs (run true share s ls) = nrun share (abs s) (tr_run share s ls).
+Proof. exact abs_run. Qed.
+Print Assumptions C18_two_reads_are_n2.
+Example C18_three_reads :
+  let s := nrun true (n_init 3 10 5) w_three in
+  map (fun x => (t_begin x, t_scan x, match t_pc x with PDone => true | _ => false end)) (n_thrs s)
+  = [(10, 12, true); (12, 12, true); (12, 12, true)]%N /\ n_frev s = 12%N.
+Proof. exact three_reads. Qed.
+
 Theorem C18_oracle_sound_roles : forall k r proxy l obs,
   c18_check (RoleCase k r proxy l obs) = true -> c18_oracle (RoleCase k r proxy l obs) = None.
 Proof. exact c18_role_sound. Qed.
 Print Assumptions C18_oracle_sound_roles.
 
 Theorem C18_oracle_sound_schedules : forall l0 f0 ls a b sets,
+  c18_validb (SchedCase l0 f0 ls a b sets) = true ->      (* the schedule runs both reads to completion *)
   c18_check (SchedCase l0 f0 ls a b sets) = true ->
   c18_oracle (SchedCase l0 f0 ls a b sets) = None.
 Proof. exact c18_sched_sound. Qed.
@@ -87,7 +111,12 @@ Theorem C18_explicit_revision_reads_sync : forall m v proxy l,
   roles_effects (ERangeAt m v) Follower proxy l = roles_effects ERangeList Follower proxy l.
 Proof. exact explicit_revision_reads_sync. Qed.
 Print Assumptions C18_explicit_revision_reads_sync.
-Theorem C18_oracle_sound_follow : forall m v r1 r2 sets hdr2,
+(* the sequential follower (fn_req: the table's row applied to the node's read revision, installRevision dropping a
+   revision that is not larger): a read at r1, the leader moves to a larger r2, a second read of any kind *)
+Theorem C18_follow_model : forall m v r1 r2, (0 < r1)%N -> (r1 < r2)%N -> follow_model m v r1 r2 = ([r1; r2], r2).
+Proof. exact follow_model_eq. Qed.
+Print Assumptions C18_follow_model.
+Theorem C18_oracle_sound_follow : forall m v r1 r2 sets hdr2, (0 < r1)%N -> (r1 < r2)%N ->
   c18_check (FollowCase m v r1 r2 sets hdr2) = true -> c18_oracle (FollowCase m v r1 r2 sets hdr2) = None.
 Proof. exact c18_follow_sound. Qed.
 Print Assumptions C18_oracle_sound_follow.
@@ -118,10 +147,51 @@ Theorem C18_forward_never_sets : forall k l,
   f_set (roles_effects k Follower true l) = None /\ f_backend (roles_effects k Follower true l) = BNone.
 Proof. exact forward_never_sets. Qed.
 Print Assumptions C18_forward_never_sets.
+(* the same node with the proxy: forwarded transaction, read, read *)
+Theorem C18_forward_model : forall w r, forward_model w r = (if (0 <? r)%N then [r] else [], r, r).
+Proof. exact forward_model_eq. Qed.
+Print Assumptions C18_forward_model.
 Theorem C18_oracle_sound_forward : forall w r sets h1 h2 c,
   c18_check (ForwardCase w r sets h1 h2 c) = true -> c18_oracle (ForwardCase w r sets h1 h2 c) = None.
 Proof. exact c18_forward_sound. Qed.
 Print Assumptions C18_oracle_sound_forward.
+
+(* soundness for EVERY case kind the driver emits (role rows, schedules, overlap, follow-up, delayed forward, take-over):
+   validity is decidable (c18_validb) and is a conjunct of the check the shards evaluate (c18_checkv), so every evaluated
+   case is covered by this theorem; an invalid case would be reported as a mismatch *)
+Theorem C18_oracle_sound : forall c, c18_valid_prop c -> c18_check c = true -> c18_oracle c = None.
+Proof. exact c18_oracle_sound. Qed.
+Print Assumptions C18_oracle_sound.
+Theorem C18_validb_sound : forall c, c18_validb c = true <-> c18_valid_prop c.
+Proof. exact c18_validb_sound. Qed.
+Print Assumptions C18_validb_sound.
+Theorem C18_checkv_sound : forall c, c18_checkv c = true -> c18_oracle c = None.
+Proof. exact c18_checkv_sound. Qed.
+Print Assumptions C18_checkv_sound.
+
+(* "rejects as unavailable or forwards", exactly: a write or a watch on a follower is rejected as unavailable when there
+   is no etcd proxy or the request is not an etcd one; with the proxy an etcd write or watch is forwarded as such; the
+   leader applies a write itself (the compaction transaction gets the canned reply, an invalid one an error) *)
+Theorem C18_follower_write_exact : forall k l, is_write k || is_stream k = true ->
+  outcome_of (roles_effects k Follower false l) = RejectUnavailable
+  /\ (etcd_fwd k <> FNone -> outcome_of (roles_effects k Follower true l) = Forward /\ f_forward (roles_effects k Follower true l) = etcd_fwd k)
+  /\ (etcd_fwd k = FNone -> outcome_of (roles_effects k Follower true l) = RejectUnavailable).
+Proof. exact follower_write_exact. Qed.
+Print Assumptions C18_follower_write_exact.
+Theorem C18_leader_write_exact : forall k proxy l, is_write k = true -> k <> ETxnCompact -> k <> ETxnInvalid ->
+  outcome_of (roles_effects k Leader proxy l) = ApplyLocal.
+Proof. exact leader_write_exact. Qed.
+Print Assumptions C18_leader_write_exact.
+
+(* the oracle is exact on the follower's write rows and on unfinished reads: an acknowledged write that was neither
+   rejected nor forwarded, a forward without a proxy, a read that never completes are flagged *)
+Example C18_lost_write_flagged :
+  c18_oracle (RoleCase BCreate Follower false Unreachable (mkEff RespOk false None BNone FNone)) = Some 0%N
+  /\ c18_oracle (RoleCase ETxnCreate Follower false Unreachable (mkEff RespOk false None BNone FNone)) = Some 0%N
+  /\ c18_oracle (RoleCase EWatchPure Follower false Unreachable (mkEff RespOk false None BNone FNone)) = Some 0%N
+  /\ c18_oracle (RoleCase ETxnCreate Follower false Unreachable (mkEff RespOk false None BNone FTxn)) = Some 0%N
+  /\ c18_oracle (SchedCase 10 5 [] (TObs false 0 0 false) (TObs false 0 0 false) []) = Some 0%N.
+Proof. exact lost_write_flagged. Qed.
 
 (* non-vacuity *)
 (* the schedule of the former finding C18-F1: A's late install of 10 is dropped, both reads scan at 12 *)
@@ -140,6 +210,13 @@ Example C18_shared_flight_was_stale : fresh (run false true (i_init 10 5) w_shar
 Proof. exact shared_flight_was_stale. Qed.
 Example C18_garbage_now_fails : outcome_of (roles_effects ERangeList Follower false Garbage200) = Error.
 Proof. reflexivity. Qed.
+Example C18_checkv_inhabited :
+  c18_checkv (OverlapCase 99 Err400 RespError [99] 99 true) = true
+  /\ c18_checkv (ForwardCase 7002 7004 [7004] 7004 7004 true) = true
+  /\ c18_checkv (RoleCase ERangeList Follower false (ReachOk 50) (mkEff RespOk true (Some 50) BRead FNone)) = true
+  /\ c18_checkv (FollowCase MList RvPinned 40 42 [40; 42] 42) = true
+  /\ c18_checkv (SchedCase 10 5 w_set_race (TObs true 10 12 false) (TObs true 12 12 false) [(5, 12)]) = true.
+Proof. vm_compute. repeat split. Qed.
 Example C18_follower_read_ok : outcome_of (roles_effects ERangeList Follower false (ReachOk 50)) = ServeLocalAt 50.
 Proof. reflexivity. Qed.
 Example C18_leader_writes : outcome_of (roles_effects ETxnCreate Leader false Unreachable) = ApplyLocal.
